@@ -187,20 +187,31 @@ class Scanner:
 
     def step(self, state, cur, prev):
         """one loop iteration; state: {local: value}; returns (new state, [emissions])"""
-        b = self.body
         env = dict(state)
         env[self.next_dest] = ("next",)
         env[self.data_param] = ("dataref",)
         emits = []
-        bi = self.some_block
+        self._exec(self.body, env, self.some_block, cur, prev, emits, top=True, depth=0)
+        new = {}
+        for l in self.state_vars:
+            v = env.get(l, TOP)
+            if v[0] == "off":
+                v = ("off", v[1] - 1)      # relative to the next position
+            new[l] = v
+        return new, emits
+
+    def _exec(self, b, env, bi, cur, prev, emits, top, depth):
+        """abstractly executes body `b` from block bi: the loop body of the scanner up to the loop header (top) or a helper
+        function of the crate up to its return (emissions inside helpers count)"""
+        du = du_of(b)
         guard = 0
         while True:
             guard += 1
             if guard > 500:
                 raise Unsupported("iteration does not end")
-            if bi == self.header:
-                break
-            if bi not in self.loop:
+            if top and bi == self.header:
+                return None
+            if top and bi not in self.loop:
                 raise Unsupported("loop body leaves the loop (early return) at bb%d" % bi)
             blk = b.blocks[bi]
             for st in blk.stmts:
@@ -212,8 +223,10 @@ class Scanner:
                 elif rv.kind in ("ref", "rawptr"):
                     pv = self._place_value(env, rv.place(), cur, prev)
                     pl = rv.place()
-                    if pl.local == self.data_param or pv[0] == "data":
+                    if (top and pl.local == self.data_param and not pl.proj) or pv[0] == "data":
                         v = ("dataref",)
+                    elif pv[0] == "dataref" and not pl.proj:
+                        v = ("ref", pv)
                     elif pv[0] == "byte":
                         v = ("curref",) if pv[1] == cur else TOP
                     elif pv[0] in ("slice", "digest"):
@@ -227,8 +240,6 @@ class Scanner:
                     a = self._operand(env, rv.operands()[0], cur, prev)
                     if rv.j["op"] == "Not" and a[0] == "bool":
                         v = _b(not a[1])
-                    elif rv.j["op"] == "PtrMetadata":
-                        v = TOP
                     else:
                         v = TOP
                 elif rv.kind == "agg":
@@ -251,12 +262,28 @@ class Scanner:
                 bi = t.j["target"]
             elif t.kind in ("drop", "assert"):
                 bi = t.j["target"]
+            elif t.kind == "return":
+                if top:
+                    raise Unsupported("loop body returns at bb%d" % bi)
+                return env.get(0, TOP)
             elif t.kind == "switch":
                 v = self._operand(env, t.discr, cur, prev)
+                vals = [sv for sv, _ in t.switch_edges() if sv is not None]
                 if v[0] == "bool":
                     val = 1 if v[1] else 0
                 elif v[0] == "int":
                     val = v[1]
+                elif v[0] == "byte":
+                    # `match byte { b'"' => .., b'{' => .., _ => .. }`
+                    if isinstance(v[1], tuple):
+                        val = v[1][1]
+                    elif v[1] == "o":
+                        odd = [x for x in vals if x not in BYTE]
+                        if odd:
+                            raise Unsupported("matches a byte against the constant %r, which the abstraction cannot separate from other ordinary bytes" % chr(odd[0]))
+                        val = -1
+                    else:
+                        val = [k for k, c_ in BYTE.items() if c_ == v[1]][0]
                 else:
                     # drop flags and similar: a switch whose arms merge again immediately does not matter; otherwise fail closed
                     raise Unsupported("branch on a value the abstraction cannot decide at %s" % b.loc(t.line))
@@ -273,15 +300,23 @@ class Scanner:
                 c = t.callee
                 args = [self._operand(env, a, cur, prev) for a in t.args]
                 res_v = TOP
+                hb = self.facts.body(c.target()) if c is not None else None
                 if c is not None and c.name == "index" and len(args) == 2 and args[1][0] == "range":
                     res_v = ("slice", args[1][1])
                 elif c is not None and c.name == "digest_bytes" and args and args[0][0] in ("slice", "ref"):
                     a0 = args[0] if args[0][0] == "slice" else args[0][1]
                     res_v = ("digest", a0[1] if a0[0] == "slice" else None)
                 elif c is not None and c.name == "insert" and t.args:
-                    fp, _ = field_path(self.du.operand_term(t.args[0], 10))
+                    fp, _ = field_path(du.operand_term(t.args[0], 10))
                     if "committed_objects" in fp:
                         emits.append((args[1] if len(args) > 1 else TOP, args[2] if len(args) > 2 else TOP))
+                elif hb is not None and hb.in_repo() and hb.kind != "closure" and hb.impl_trait is None and depth < 2 and \
+                        any(a[0] in ("off", "dataref") or (a[0] == "ref" and a[1][0] == "dataref") for a in args):
+                    # a helper of the crate that receives positions / the pack bytes (e.g. `index_object(name, data, start, end)`)
+                    henv = {}
+                    for i, a in enumerate(args):
+                        henv[i + 1] = ("dataref",) if (a[0] == "ref" and a[1][0] == "dataref") else a
+                    res_v = self._exec(hb, henv, 0, cur, prev, emits, top=False, depth=depth + 1)
                 if t.dest is not None and not t.dest.proj:
                     env[t.dest.local] = res_v
                 if t.j["target"] is None:
@@ -289,13 +324,6 @@ class Scanner:
                 bi = t.j["target"]
             else:
                 raise Unsupported("terminator %s in the loop body" % t.kind)
-        new = {}
-        for l in self.state_vars:
-            v = env.get(l, TOP)
-            if v[0] == "off":
-                v = ("off", v[1] - 1)      # relative to the next position
-            new[l] = v
-        return new, emits
 
     # ------------------------------------------------------------------ reference machine + product exploration
     def compare(self, maxlen=8, maxdepth=2):
